@@ -301,6 +301,16 @@ def run(ctx):
                 calls.append((a[0], a[1], n0, e, n1))
                 return n0, [e], n1
             it.call_hooks['smoothing.smoothed_joint'] = sj
+
+            def joint_builder(it2, f, a, k):
+                # whatever smoothed_path calls directly, inside the smoothing module, with two neighbouring segments: the joint builder
+                # (it may be a private worker behind the public smoothed_joint)
+                if f.info is not None and f.info.module.name == 'smoothing' and f.info.name not in ('smoothed_path', 'kinks', 'is_differentiable') \
+                        and it2.func_stack and it2.func_stack[-1] == 'smoothing.smoothed_path' and len(a) >= 2 \
+                        and all(isinstance(x, (Obj, Opaque)) and 'start' in getattr(x, 'attrs', {}) for x in a[:2]):
+                    return sj
+                return None
+            it.hook_pred = joint_builder
             captured = {}
 
             def mkpath(it2, a, k):
